@@ -71,7 +71,7 @@ func Check() *core.Check {
 const numPinned = 8
 
 const (
-	quickRandom    = 650
+	quickRandom    = 450
 	thoroughRandom = 4000
 )
 
